@@ -1,7 +1,7 @@
 """C20 - the document graph stays a well-formed forest (syntactic premises of the inductive step)."""
 from vlib import factbase as fb
 from vlib import q
-from .common import ctx, loc, match_arms_on, arms_by_variant, self_field, field_of
+from .common import pname, ctx, loc, match_arms_on, arms_by_variant, self_field, field_of
 from . import c04
 
 GRAPHNODE = "liwe::graph::graph_node::GraphNode"
@@ -111,7 +111,7 @@ def rule_r2(facts, rep, rid="C20-R2"):
                     recv = y["recv"]
                     on_cursor = recv.get("k") == "mcall" and recv["name"] == "node_mut" and recv["args"] and self_field(recv["args"][0]) == "id"
                     argv = c.vprov(y["args"][0])
-                    of_node = q.has_call(argv, "GraphNode::id") and ("param", "node") in argv
+                    of_node = q.has_call(argv, "GraphNode::id") and ("param", pname(f, 1)) in argv
                     out.append((y["name"], on_cursor, of_node))
             return out
         t = link_calls(iff["t"])
@@ -122,7 +122,7 @@ def rule_r2(facts, rep, rid="C20-R2"):
         if e != [("set_next_id", True, True)]:
             probs.append("append-branch is %s, expected exactly node_mut(self.id).set_next_id(node.id())" % e)
         added = [y for y in fb.walk(f.body) if y.get("k") == "mcall" and (fb.callee(y) or "").endswith("Graph::add_graph_node")]
-        if len(added) != 1 or ("param", "node") not in c.vprov(added[0]["args"][0]):
+        if len(added) != 1 or ("param", pname(f, 1)) not in c.vprov(added[0]["args"][0]):
             probs.append("the node is not stored exactly once with add_graph_node(node)")
         # sub-builder handed to f
         sub = [y for y in fb.walk(f.body) if y.get("k") == "struct" and fb.norm(y.get("def", "")).endswith("GraphBuilder")]
@@ -131,10 +131,10 @@ def rule_r2(facts, rep, rid="C20-R2"):
         else:
             fl = {z["name"]: z["e"] for z in sub[0]["fields"]}
             pi = c.vprov(fl.get("insert"))
-            if not (q.has_call(pi, "GraphNode::insertable") and ("param", "node") in pi):
+            if not (q.has_call(pi, "GraphNode::insertable") and ("param", pname(f, 1)) in pi):
                 probs.append("sub-builder.insert is not node.insertable()")
             pid = c.vprov(fl.get("id"))
-            idok = (q.has_call(pid, "GraphNode::id") and ("param", "node") in pid) or self_field(fl.get("id")) == "id"
+            idok = (q.has_call(pid, "GraphNode::id") and ("param", pname(f, 1)) in pid) or self_field(fl.get("id")) == "id"
             if self_field(fl.get("id")) == "id":
                 # then self.id must have been assigned node.id() before
                 asg = [y for y in fb.walk(f.body) if y.get("k") == "assign" and self_field(y["l"]) == "id"]
